@@ -315,6 +315,9 @@ m("CTL-C16-range-contains", "C16", "", SER,
 m("C16-width-off-by-one", "C16", "reader-accepts-every-writer-width", SER,
   "    if task_id_bits == 0 || task_id_bits > usize::BITS as usize {", "    if task_id_bits == 0 || task_id_bits >= usize::BITS as usize {",
   "reader rejects the widest id width the writer can emit")
+m("C13-d9-regression", "C13", "stopped-cleanup-is-a-no-op", EX,
+  "            if state.in_cleanup && state.current_task == ScheduledTask::Stopped {\n                return false;\n            }\n", "",
+  "regression of the D9 fix: a guard on the stack of an abandoned execution aborts the process", suite="pass")
 m("CTL-C13-reset-helper", "C13", "", "shuttle-engine/src/current.rs",
   "    ExecutionState::with(|s| s.steps_reset_at = CurrentSchedule::len());",
   "    let now = CurrentSchedule::len();\n    ExecutionState::with(|s| s.steps_reset_at = now);",
